@@ -301,7 +301,7 @@ def asm_format_leg(ctx, rng, scratch, i):
     # after one of the other format) comes out as the same TPF
     from vf.ref import tpf_ref
 
-    lines = tpf_ref.format(plain).splitlines(keepends=True)
+    lines = [x + "\n" for x in tpf_ref.format(plain).split("\n") if x]  # (not splitlines(): names may hold \x0b, \x1c, \u2028 ...)
     if lines:
         for _ in range(rng.randint(1, 4)):
             lines.insert(rng.randint(1, len(lines)), rng.choice(["\n", "   \n", "\t\n"]))
